@@ -487,6 +487,9 @@ def b_ptr_eq(it, args, e, mod):
 
 @builtin("RefCell::new")
 def b_refcell_new(it, args, e, mod):
+    if it.fn_stack and it.fn_stack[-1] == "open":
+        # de_bruijn::open met an unresolved hole and replaces it by a fresh, unrelated one
+        it.ex.event("open_fresh_hole")
     return CellV(it.ex.fresh("cell"), content=args[0])
 
 
